@@ -39,20 +39,35 @@ def onRaise (h : Hierarchy) (t : TryBlock) (cls : String) (debug : Bool) : Outco
   | some (_, reraise, writes, status) =>
     if debug && reraise then ⟨-1, false, true⟩ else ⟨status, writes, false⟩
 
+/-- what decoding a document can raise: malformed text (`JSONDecodeError`), bytes that are not text
+    (`UnicodeDecodeError`), and a plain `ValueError` for a number with more digits than `int()` converts -/
+def decodeErrors : List String := ["JSONDecodeError", "UnicodeDecodeError", "ValueError"]
+
 /-- Exception classes the library call(s) in a `try` body may raise for a rejected input: the
     documented family of the call (C06 shows nothing else escapes the pointer/patch models) plus the
-    two "undecodable document" errors of `json`. -/
+    "undecodable document" errors of `json`; reading an expression file (`-r`) raises `UnicodeDecodeError`
+    when the file is not text. -/
 def raisable (calls : List String) : List String :=
   (if calls.contains "compile" then
     ["JSONPathError", "JSONPathSyntaxError", "JSONPathTypeError", "JSONPathIndexError", "JSONPathNameError"] else []) ++
   (if calls.contains "findall" then
-    ["JSONPathError", "JSONPathTypeError", "JSONDecodeError", "UnicodeDecodeError"] else []) ++
+    ["JSONPathError", "JSONPathTypeError"] ++ decodeErrors else []) ++
   (if calls.contains "resolve" then
-    ["JSONPointerError", "JSONPointerResolutionError", "JSONPointerIndexError", "JSONPointerKeyError", "JSONPointerTypeError",
-     "JSONDecodeError", "UnicodeDecodeError"] else []) ++
+    ["JSONPointerError", "JSONPointerResolutionError", "JSONPointerIndexError", "JSONPointerKeyError", "JSONPointerTypeError"]
+      ++ decodeErrors else []) ++
   (if calls.contains "apply" then
-    ["JSONPatchError", "JSONPatchTestFailure", "JSONDecodeError", "UnicodeDecodeError"] else []) ++
-  (if calls.contains "load" then ["JSONDecodeError", "UnicodeDecodeError"] else [])
+    ["JSONPatchError", "JSONPatchTestFailure"] ++ decodeErrors else []) ++
+  (if calls.contains "load" then decodeErrors else []) ++
+  (if calls.contains "read" then ["UnicodeDecodeError"] else [])
+
+/-- an expression given in a file is read inside a `try` block: every handler that reads one (`args.<x>_file`)
+    has a block whose body calls `read` -/
+def fileReadsGuarded (handlers : List (String × List TryBlock)) (reads : List (String × List String)) : Bool :=
+  reads.all (fun (handler, attrs) =>
+    !(attrs.any (fun a => a.toList.reverse.take 5 == "_file".toList.reverse)) ||
+      (match handlers.lookup handler with
+       | some tries => tries.any (fun t => t.1.contains "read")
+       | none => false))
 
 /-- every `args.<attr>` a handler reads is a dest of its sub-command or a global option -/
 def attrsDefined (reads : List (String × List String)) (subs : List (String × String × List String))
